@@ -7,17 +7,20 @@ from vlib import coqlit as L
 PID = "C03"
 PROP_FILES = ["Prop"]
 ALLOWED_AXIOMS = []
-RULE = ("histories of next/take/peek/skip/limit/copy/append/map/filter/thub/Stream(hub)/tee over a pool of integer "
-        "Streams (finite lists and periodic Stream(a, b, ..)); counts from None, ints (negative, 0, within, equal, "
-        "beyond), floats (x.4, x.5, halves, negative), inf, -inf, nan; map/filter functions from {+c, *c, even, >c}; "
-        "all pairs of operations exhaustively on the pools [1,2,3], [], (1,2) (quick: a seeded 30 %; thorough: all, plus "
-        "all triples over 6 counts), seeded samples of length 3-4 and random histories of length 5-25 over 1-3 random "
-        "sources. Exclusions (stated, enforced by the generator): a history is cut before an operation that does not "
-        "terminate (take(inf) of an endless stream, a filter that rejects a whole period: detected by a dry run with a "
-        "pull budget); an object is never touched again after skip(n) with a non-roundable n (None, inf, nan: the error "
-        "is raised lazily inside the generator) nor after its iterator was handed to thub()/tee() (shared iterator); "
-        "thub(hub without uses left) is not generated (IndexError plus a RecursionError inside __del__). "
-        "Non-trivial = a copy/tee output/hub use exists and both it and its origin are consumed afterwards")
+RULE = ("histories of next/take/peek/skip/limit/copy/append/map/filter/thub/Stream(hub)/tee/append(existing object) and "
+        "in-place mutation of a returned container, over pools of integer Streams built from every kind of source object "
+        "(list, tuple, deque (bounded too), range, generator, iterator, another Stream / its iterator, islice(count), "
+        "object with only __iter__, array, dict keys, map / chain objects, itertools.repeat(x, k), audiolazy repeat(x, k); "
+        "periodic: Stream(a, b, ..), itertools.cycle, itertools.repeat(x)); counts from None, ints, bools, floats (x.4, "
+        "x.5, halves, negative), inf, -inf, nan; list / tuple / deque constructors, positional and keyword call styles; "
+        "map/filter functions from {+c, *c, even, >c}. Families: alias (every source kind x take/peek x constructor x "
+        "mutation of the result x follow-ups with copies), hubappend, all pairs of operations on small pools (quick: a "
+        "seeded 25 %; thorough: all, plus all triples over 6 counts), seeded samples of length 3-4, random histories of "
+        "length 5-25 over 1-3 random sources; after the history the caller's own containers must be unchanged. "
+        "Exclusions (stated, enforced by the generator): a history is cut before an operation that does not terminate "
+        "(dry run with a pull budget); an object is never touched again after skip(n) with a non-roundable n nor after "
+        "its iterator was handed to thub()/tee()/append(); thub(hub without uses left) is not generated. "
+        "Non-trivial = two objects of one family (origin, copies, tee outputs, hub uses) are both consumed after the split")
 EXHAUSTIVE = {"quick": False, "thorough": False}
 trusted_base = ["stream items are Python ints; counts are ints or exactly representable floats"]
 ASSUMPTIONS = ["CPython itertools.tee / islice / chain / cycle and generator semantics as documented"]
@@ -26,7 +29,7 @@ BUDGET = 3000
 COUNTS = [["none"], ["int", -1], ["int", 0], ["int", 1], ["int", 2], ["int", 3], ["int", 5],
           ["flt", 12, 5], ["flt", 5, 2], ["flt", 3, 2], ["flt", -5, 2], ["inf"], ["ninf"], ["nan"]]
 COUNTS3 = [["none"], ["int", 0], ["int", 2], ["int", 5], ["flt", 5, 2], ["inf"]]
-POOL = [["fin", [1, 2, 3]], ["fin", []], ["cyc", [1, 2]]]
+POOL = [["fin", [1, 2, 3]], ["fin", []], ["cyc", [1, 2]], ["fin", [7, 7, 7]]]
 
 
 class _Budget(Exception):
@@ -37,6 +40,7 @@ def pycount(c):
   k = c[0]
   if k == "none": return None
   if k == "int": return c[1]
+  if k == "bool": return bool(c[1])
   if k == "flt": return c[1] / c[2]
   return {"inf": float("inf"), "ninf": float("-inf"), "nan": float("nan")}[k]
 
@@ -50,18 +54,76 @@ def _guarded(items, box):
       yield x
 
 
-def _mk(p, guard, box):
+class _OnlyIter(object):
+  """an object that is iterable only through __iter__"""
+  def __init__(self, items):
+    self.items = items
+  def __iter__(self):
+    return iter(self.items)
+
+
+def fin_kinds(l):
+  """the kinds of Python object that can carry the finite sequence l"""
+  ks = ["list", "tuple", "deque", "dequeb", "gen", "iter", "streamiter", "stream", "onlyiter", "array", "mapobj",
+        "chainobj"]
+  if l == list(range(l[0] if l else 0, (l[0] if l else 0) + len(l))):
+    ks += ["range", "islice_count"]
+  if len(set(l)) == len(l):
+    ks += ["dictkeys"]
+  if len(set(l)) <= 1:
+    ks += ["it_repeat", "al_repeat"]
+  return ks
+
+
+def cyc_kinds(l):
+  return ["args", "it_cycle"] + (["it_repeat_inf"] if len(l) == 1 else [])
+
+
+def _raw(p, args):
+  """the iterable handed to Stream(..) / append(..) for a finite source of kind p[2]"""
+  import audiolazy, collections, array
+  l, k = list(p[1]), (p[2] if len(p) > 2 else "list")
+  if k == "list": args.append((l, list(l))); return l
+  if k == "tuple": return tuple(l)
+  if k == "deque": d = collections.deque(l); args.append((d, collections.deque(l))); return d
+  if k == "dequeb": d = collections.deque(l, maxlen=len(l) + 2); args.append((d, collections.deque(l))); return d
+  if k == "gen": return (x for x in l)
+  if k == "iter": return iter(l)
+  if k == "streamiter": return iter(audiolazy.Stream(l))
+  if k == "stream": return audiolazy.Stream(l)
+  if k == "onlyiter": return _OnlyIter(l)
+  if k == "array": a = array.array("q", l); args.append((a, array.array("q", l))); return a
+  if k == "mapobj": return map(int, l)
+  if k == "chainobj": return itertools.chain(l[:1], l[1:])
+  if k == "range": return range(l[0], l[0] + len(l)) if l else range(0)
+  if k == "islice_count": return itertools.islice(itertools.count(l[0] if l else 0), len(l))
+  if k == "dictkeys": return dict.fromkeys(l).keys()
+  if k == "it_repeat": return itertools.repeat(l[0] if l else 0, len(l))
+  if k == "al_repeat": return audiolazy.repeat(l[0] if l else 0, len(l))
+  raise ValueError(k)
+
+
+def _mk(p, guard, box, args):
   import audiolazy
   if p[0] == "fin":
-    return audiolazy.Stream(list(p[1]))
+    r = _raw(p, args)
+    return r if (len(p) > 2 and p[2] == "al_repeat") else audiolazy.Stream(r)
   if guard:
     return audiolazy.Stream(_guarded(list(p[1]), box))
+  k = p[2] if len(p) > 2 else "args"
+  if k == "it_cycle": return audiolazy.Stream(itertools.cycle(list(p[1])))
+  if k == "it_repeat_inf": return audiolazy.Stream(itertools.repeat(p[1][0]))
   return audiolazy.Stream(*p[1])  # repeat (one value) or cycle (several)
 
 
-def _items(v):
-  if type(v) is list and all(type(x) is int for x in v):
-    return ["items", v]
+CTORS = ("list", "tuple", "deque")
+
+
+def _items(v, ctor="list"):
+  import collections
+  t = {"list": list, "tuple": tuple, "deque": collections.deque}[ctor]
+  if type(v) is t and all(type(x) is int for x in v):
+    return ["items", list(v)]
   return ["raise", "BadItems"]
 
 
@@ -79,9 +141,16 @@ def _inplace(objs, s, r):
   return ["raise", "NotSelf"]
 
 
-def _step(objs, op, guard, box):
-  import audiolazy
+def _step(objs, op, guard, box, env):
+  import audiolazy, collections
   k = op[0]
+  if k == "mutate":   # the caller changes, in place, the container the last take / peek returned
+    v = env["last"]
+    if type(v) in (list, collections.deque):
+      if op[1] == 0: v.reverse()
+      elif op[1] == 1: v.append(99)
+      else: v.clear()
+    return ["self"]
   if k == "thubval":
     v = audiolazy.thub(op[1], op[2]); return ["item", v] if type(v) is int else ["raise", "BadItem"]
   if k == "teeval":
@@ -91,13 +160,23 @@ def _step(objs, op, guard, box):
     v = next(iter(s)); return ["item", v] if type(v) is int else ["raise", "BadItem"]
   if k in ("take", "peek"):
     n = pycount(op[2])
-    v = getattr(s, k)(n)
-    return (["item", v] if type(v) is int else ["raise", "BadItem"]) if n is None else _items(v)
+    ctor = op[3] if len(op) > 3 else "list"
+    env["calls"] = env.get("calls", 0) + 1
+    kw = env["calls"] % 2 == 0              # alternate positional / keyword call styles
+    if ctor == "list":
+      v = getattr(s, k)(n=n) if kw else getattr(s, k)(n)
+    else:
+      cf = {"tuple": tuple, "deque": collections.deque}[ctor]
+      v = getattr(s, k)(n=n, constructor=cf) if kw else getattr(s, k)(n, cf)
+    if n is None:
+      return ["item", v] if type(v) is int else ["raise", "BadItem"]
+    env["last"] = v
+    return _items(v, ctor)
   if k in ("skip", "limit"):
     return _inplace(objs, s, getattr(s, k)(pycount(op[2])))
   if k == "append":
     if op[2][0] == "fin":
-      return _inplace(objs, s, s.append(list(op[2][1])))
+      return _inplace(objs, s, s.append(_raw(op[2], env["args"])))
     if guard:   # dry run of the generator: same values, but a runaway consumer is stopped
       return _inplace(objs, s, s.append(_guarded(list(op[2][1]), box)))
     return _inplace(objs, s, s.append(*op[2][1]))
@@ -127,12 +206,13 @@ def _step(objs, op, guard, box):
 
 def _exec(case, guard):
   box = [BUDGET]
-  objs = [_mk(p, guard, box) for p in case["pool"]]
+  env = {"last": None, "args": []}
+  objs = [_mk(p, guard, box, env["args"]) for p in case["pool"]]
   out = []
   for op in case["ops"]:
     box[0] = BUDGET
     try:
-      o = _step(objs, op, guard, box)
+      o = _step(objs, op, guard, box, env)
     except _Budget:
       o = ["diverge"]
     except Exception as e:
@@ -140,6 +220,9 @@ def _exec(case, guard):
     out.append(o)
     if o == ["diverge"]:
       break
+  # the caller's own containers (lists / deques / arrays given to Stream or append) still hold what they held
+  if any(list(obj) != list(snap) for obj, snap in env["args"]):
+    out.append(["raise", "ArgumentMutated"])
   return out
 
 
@@ -182,7 +265,7 @@ def alphabet(kinds, counts, rich=True):
 def advance(op, kinds):
   """object kinds after op, mirroring which calls create / use up / kill objects"""
   k = op[0]
-  if k in ("thubval", "teeval", "next"):
+  if k in ("thubval", "teeval", "next", "mutate"):
     return kinds
   i = op[1]; kd = kinds[i]; kinds = list(kinds)
   if k == "appendobj":                             # Stream(obj_j): a hub loses a use, a Stream is handed over
@@ -241,7 +324,7 @@ def finish(pool, ops, tags):
 
 def random_op(rng, kinds, counts):
   ops = list(alphabet(kinds, [rng.choice(counts), ["int", rng.randrange(-2, 9)],
-                              ["flt", rng.randrange(-3, 19), rng.choice([2, 4])]]))
+                              ["flt", rng.randrange(-3, 19), rng.choice([2, 4])], ["bool", rng.randrange(0, 2)]]))
   plain = [o for o in ops if o[0] in ("next", "take", "peek", "copy", "use", "appendobj")]
   return rng.choice(plain if plain and rng.random() < 0.5 else ops)
 
@@ -271,30 +354,94 @@ def gen_hubappend(tier):
             yield finish([["fin", own], tail], ops, ["hubappend", "n=%d" % n])
 
 
+def is_container_op(op):
+  return op[0] in ("take", "peek") and op[2][0] != "none"
+
+
+class _Rot(object):
+  """deterministic round-robin choices (kinds of source object, constructors, mutations)"""
+  def __init__(self):
+    self.k = 0
+  def pick(self, seq):
+    self.k += 1
+    return seq[self.k % len(seq)]
+
+
+def kinded(p, rot):
+  return [p[0], p[1], rot.pick(fin_kinds(p[1]) if p[0] == "fin" else cyc_kinds(p[1]))]
+
+
+def decorate(ops, rot, always=False):
+  """constructor variants for take / peek and an in-place mutation of the returned container right after"""
+  out = []
+  for op in ops:
+    if is_container_op(op):
+      op = op[:3] + [rot.pick(CTORS)]
+      out.append(op)
+      if always or rot.pick((0, 1)) == 1:
+        out.append(["mutate", rot.pick((0, 1, 2))])
+    else:
+      if op[0] == "append" and op[2][0] == "fin":
+        op = [op[0], op[1], kinded(op[2], rot)]
+      out.append(op)
+  return out
+
+
+def gen_alias(tier, rng):
+  """every kind of source object; take / peek with each constructor; the returned container is then
+  mutated in place; the stream, a copy made before and one made after must be unaffected"""
+  rot = _Rot()
+  tails = [[["take", 0, ["int", 5]]],
+           [["copy", 0], ["take", 1, ["int", 5]], ["take", 0, ["int", 5]]],
+           [["peek", 0, ["int", 2]], ["mutate", 0], ["skip", 0, ["int", 1]], ["take", 0, ["inf"]]]]
+  for l in ([1, 2, 3], [7, 7, 7], [4], []):
+    for kind in fin_kinds(l):
+      for first in ("peek", "take"):
+        for n in (["int", 2], ["int", 5], ["flt", 3, 2]):
+          for ctor in CTORS:
+            for mut in (None, 0, 1, 2):
+              for ti, tail in enumerate(tails):
+                if tier == "quick" and rng.random() > 0.18:
+                  continue
+                ops = [[first, 0, n, ctor]] + ([["mutate", mut]] if mut is not None else []) + tail
+                yield finish([["fin", l, kind]], ops, ["alias", kind, first, "mut" if mut is not None else "nomut"])
+  for l in ([1, 2], [5]):
+    for kind in cyc_kinds(l):
+      for first in ("peek", "take"):
+        for ctor in CTORS:
+          for mut in (0, 1, 2):
+            for tail in tails[:2]:
+              yield finish([["cyc", l, kind]], [[first, 0, ["int", 3], ctor], ["mutate", mut]] + tail,
+                           ["alias", kind, first, "mut"])
+
+
 def gen_hist(tier, rng):
+  for c in gen_alias(tier, rng):
+    yield c
   for c in gen_hubappend(tier):
     yield c
+  rot = _Rot()
   # all pairs of operations on each single-source pool (quick: a seeded 30 % of them)
   for p in POOL:
     for ops in histories(2, [("s",)], COUNTS):
-      if tier == "quick" and rng.random() > 0.3:
+      if tier == "quick" and rng.random() > 0.2:
         continue
-      yield finish([p], ops, ["exh2", p[0]])
+      yield finish([kinded(p, rot)], decorate(ops, rot), ["exh2", p[0]])
   if tier != "quick":   # all triples over a reduced set of counts
     for p in POOL:
       for ops in histories(3, [("s",)], COUNTS3):
-        yield finish([p], ops, ["exh3", p[0]])
+        yield finish([kinded(p, rot)], decorate(ops, rot), ["exh3", p[0]])
   # sampled triples / quadruples on the same pools
-  n = 2000 if tier == "quick" else 40000
+  n = 1500 if tier == "quick" else 40000
   for _ in range(n):
     p, ln = rng.choice(POOL), rng.choice([3, 4])
     ops, kinds = [], [("s",)]
     for _k in range(ln):
       op = rng.choice(list(alphabet(kinds, COUNTS)))
       ops.append(op); kinds = advance(op, kinds)
-    yield finish([p], ops, ["sample%d" % ln, p[0]])
+    yield finish([kinded(p, rot)], decorate(ops, rot), ["sample%d" % ln, p[0]])
   # random long histories over larger pools
-  n = 800 if tier == "quick" else 8000
+  n = 700 if tier == "quick" else 8000
   for _ in range(n):
     pool = []
     for _k in range(rng.randrange(1, 4)):
@@ -306,7 +453,7 @@ def gen_hist(tier, rng):
     for _k in range(rng.randrange(5, 26)):
       op = random_op(rng, kinds, COUNTS)
       ops.append(op); kinds = advance(op, kinds)
-    yield finish(pool, ops, ["random"])
+    yield finish([kinded(q, rot) for q in pool], decorate(ops, rot), ["random"])
 
 
 def run_hist(c):
@@ -315,7 +462,7 @@ def run_hist(c):
 
 def lit_count(c):
   k = c[0]
-  if k == "int": return "(CInt %s)" % L.z(c[1])
+  if k in ("int", "bool"): return "(CInt %s)" % L.z(c[1])   # True / False count as 1 / 0
   if k == "flt": return "(CFlt %s %d%%positive)" % (L.z(c[1]), c[2])
   return {"none": "CNone", "inf": "CInf", "ninf": "CNegInf", "nan": "CNan"}[k]
 
@@ -323,6 +470,8 @@ def lit_count(c):
 def lit_op(op):
   k = op[0]
   name = "O" + k.capitalize()
+  if k == "mutate":
+    return "OMutateResult %s" % L.nat(op[1])
   if k in ("next", "copy", "use"):
     return "%s %s" % (name, L.nat(op[1]))
   if k in COUNTED:
@@ -363,7 +512,7 @@ def nontrivial_hist(c, o):
   """two objects of one family (origin, copies, tee outputs, hub uses) are both consumed after the split"""
   root = {}
   for op, ob in zip(c["ops"], o["outs"]):
-    if op[0] in ("thubval", "teeval"):
+    if op[0] in ("thubval", "teeval", "mutate"):
       continue
     r = root.get(op[1], op[1])
     if ob[0] == "new":
